@@ -169,6 +169,7 @@ def run_ob(ob, tier, workdir):
         except Exception as e:
             res['status'] = 'undecided'; res['reason'] = 'static scan failed: ' + repr(e)
         open(log, 'w').write(json.dumps(res['results'], indent=1))
+        res['fails'] = [x for x in res['results'] if x[2] == 'FAILURE'] if res['status'] == 'fail' else []
         res['wall_s'] = time.time() - t0
         return res
     try:
@@ -461,6 +462,10 @@ def check(prop, tier):
 
 def make_replay(ob, r, path, prop):
     """write the replay file: failed obligations + CBMC trace; returns True when a native replay confirmed"""
+    if ob.py_check is not None:
+        json.dump(dict(property=prop, obligation=ob.id, failed=[dict(name=n, description=ds) for (n, ds, st) in r.get('fails', [])], tier=ob.tier,
+                       verifier_output=r.get('results'), native_replay=None, note='static fact from the clang AST: no input to replay'), open(path, 'w'), indent=1)
+        return False
     d = os.path.dirname(r['log'])
     binp = 'b.gb' if os.path.exists(os.path.join(d, 'b.gb')) else 'a.gb'
     cb = ['cbmc', binp] + [f for f in CBMC_FLAGS if ('-no:' + f) not in ob.flags] + [f for f in ob.flags if not f.startswith('-no:')] + ['--trace', '--stop-on-fail'] + r.get('unwind_flags', [])
